@@ -97,11 +97,68 @@ def observed_build(server, root, spec, cfg):
     return {"cfg": cfg, "obs": obs, "pre": pre, "post": post, "spec": copy.deepcopy(spec), "hashseed": server.hashseed}
 
 
+SEQ_WORKER = Path(__file__).resolve().parent / "dryrun_seq_worker.py"
+
+
+def restore(root: Path, bak: Path):
+    shutil.rmtree(root)
+    shutil.copytree(bak, root, symlinks=True)
+
+
+def inproc_pair(root: Path, kw_dry: dict, kw_real: dict, hashseed: int):
+    """dry run and real build in ONE fresh interpreter (the property does not say 'in a fresh process')"""
+    import json
+    import subprocess
+    import tempfile
+    fd, out = tempfile.mkstemp(prefix="c10seq-", suffix=".json")
+    os.close(fd)
+    try:
+        env = dict(os.environ, PYTHONHASHSEED=str(hashseed), PYTHONDONTWRITEBYTECODE="1")
+        r = subprocess.run([common.PY, str(SEQ_WORKER), str(root), json.dumps([kw_dry, kw_real]), out], env=env, cwd="/",
+                           capture_output=True, text=True, timeout=300)
+        try:
+            res = json.loads(Path(out).read_text())
+        except ValueError:
+            raise common.InfraError(f"in-process twin worker failed (rc {r.returncode}): {r.stderr[-400:]}")
+        for o in res:
+            o["log"] = [tuple(x) for x in o["log"]]
+        return res
+    finally:
+        Path(out).unlink(missing_ok=True)
+
+
+def twin_core(server, root: Path, build, cfg: dict, inproc: bool = False):
+    """state is prepared in `root`; build(cfg) -> record with ["obs"] (obs["log"] = body log of that build).
+    A: dry run, then the build; B: the build alone from the restored state; C (optional): dry run + build in one interpreter
+    from the restored state."""
+    bak = Path(str(root) + "_bak")
+    try:
+        (root / ".verif_log").unlink(missing_ok=True)
+        shutil.copytree(root, bak, symlinks=True)          # copy2: contents, modes, mtimes (ns)
+        files0, dirs0 = snapshot(root)
+        dry = build(dict(cfg, dry=True))
+        files1, dirs1 = snapshot(root)
+        a = build(cfg)
+        restore(root, bak)
+        files2, _ = snapshot(root)
+        b = build(cfg)
+        twin = {"cfg": cfg, "dry": dry, "a": a, "b": b,
+                "dry_file_changes": snapshot_diff(files0, files1), "restore_changes": snapshot_diff(files0, files2),
+                "dirs_created_by_dry": sorted(dirs1 - dirs0), "nfiles": len(files0)}
+        if inproc:
+            restore(root, bak)
+            (root / ".verif_log").unlink(missing_ok=True)
+            c = inproc_pair(root, builder.cfg_to_kw(dict(cfg, dry=True)), builder.cfg_to_kw(cfg), server.hashseed)
+            twin["inproc"] = {"dry": {"obs": c[0]}, "a": {"obs": c[1]}}
+        return twin
+    finally:
+        shutil.rmtree(bak, ignore_errors=True)
+
+
 def run_twin(server, hist):
-    """hist = {"spec", "steps": prefix, "twin": cfg (without dry)}.
+    """hist = {"spec", "steps": prefix, "twin": cfg (without dry), optional "inproc": True}.
     Returns {"records": prefix records (as impl.engine.run_history), "twin": {...}}."""
     root = common.scratch_dir("c10")
-    bak = Path(str(root) + "_bak")
     clock = project.Clock()
     spec = copy.deepcopy(hist["spec"])
     records = []
@@ -118,23 +175,52 @@ def run_twin(server, hist):
             records.append(rec)
         cfg = dict(hist["twin"])
         cfg.pop("dry", None)
-        project.clear_log(root)
-        shutil.copytree(root, bak, symlinks=True)          # copy2: contents, modes, mtimes (ns)
-        files0, dirs0 = snapshot(root)
-        dry = observed_build(server, root, spec, dict(cfg, dry=True))
-        files1, dirs1 = snapshot(root)
-        a = observed_build(server, root, spec, cfg)
-        shutil.rmtree(root)
-        shutil.copytree(bak, root, symlinks=True)
-        files2, _ = snapshot(root)
-        b = observed_build(server, root, spec, cfg)
-        twin = {"cfg": cfg, "spec": copy.deepcopy(spec), "dry": dry, "a": a, "b": b,
-                "dry_file_changes": snapshot_diff(files0, files1), "restore_changes": snapshot_diff(files0, files2),
-                "dirs_created_by_dry": sorted(dirs1 - dirs0), "nfiles": len(files0)}
+        twin = twin_core(server, root, lambda c: observed_build(server, root, spec, c), cfg, inproc=bool(hist.get("inproc")))
+        twin["spec"] = copy.deepcopy(spec)
         return {"records": records, "twin": twin}
     finally:
         shutil.rmtree(root, ignore_errors=True)
-        shutil.rmtree(bak, ignore_errors=True)
+
+
+def run_prov_twin(server, hist):
+    """The same experiment over a project with directory-pattern (DirectoryNode) products / dependencies (generator:
+    impl.prov_api; no task generators). hist = {"spec", "steps": [["build"] | edits], "twin": cfg}. Implementation only."""
+    from impl import prov_api
+    root = common.scratch_dir("c10p")
+    clock = project.Clock()
+    spec = copy.deepcopy(hist["spec"])
+
+    def build(cfg):
+        (root / ".verif_log").unlink(missing_ok=True)
+        obs = server.build(root, builder.cfg_to_kw(cfg))
+        obs["log"] = prov_api.read_log(root)
+        return {"cfg": cfg, "obs": obs}
+    try:
+        prov_api.materialise(root, spec, clock)
+        records = []
+        for step in hist["steps"]:
+            kind = step[0]
+            rec = {"step": step}
+            if kind == "build":
+                rec.update(build(step[1] if len(step) > 1 else {}))
+            elif kind == "write":
+                project.write_file(prov_api.npath(root, step[1], spec), str(step[2]), clock)
+            elif kind == "touch":
+                p = prov_api.npath(root, step[1], spec)
+                if p.exists():
+                    project.write_file(p, p.read_text(), clock)
+            elif kind == "delete":
+                prov_api.npath(root, step[1], spec).unlink(missing_ok=True)
+            else:
+                raise ValueError(kind)
+            records.append(rec)
+        cfg = dict(hist["twin"])
+        cfg.pop("dry", None)
+        twin = twin_core(server, root, build, cfg)
+        twin["spec"] = copy.deepcopy(spec)
+        return {"records": records, "twin": twin}
+    finally:
+        shutil.rmtree(root, ignore_errors=True)
 
 
 def parse_answer(ans: str):
